@@ -88,6 +88,8 @@ pub const FRAGMENTS: &[&[u8]] = &[
     b"\xef\xbc\xa1", b"\xef\xbb\x81", b"\xef\xbb", b"\xef", b"\xfe", b"\xff\xfd",
     b"<?XML?>", b"<?Xml version='1.0'?>", b"<?xML ?>", b"XML", b"Xml", b"<?XML-x?>", b"<!doctype>", b"<![cdata[x]]>", b"<!ELEMENT r>",
     b"<a:b>", b"</a:b>", b"<a xmlns='u'>", b"<p:a xmlns:p=\"u\">", b"<![", b"<!-", b"<!D", b"<!DOCTYP", b"<![CDATA", b"!", b"/", b"\xEF\xBB\xBF",
+    // UTF-16 byte-order marks (plain bytes for a build without `encoding`), blanks in front of the `xml` target, empty encoding labels, a PI that is a target only
+    b"\xff\xfe", b"\xfe\xff", b"<? xml version='1.0'?>", b"<? xml?>", b"<?xml version='1.0' encoding=''?>", b"<?xml encoding=\"\"?>", b"<?page-break?>", b"<?xml version='1.0' encoding='x y'?>",
 ];
 
 #[derive(Clone, Debug, serde::Serialize, serde::Deserialize, PartialEq)]
